@@ -404,7 +404,34 @@ def check_c20(prop, tier, seed):
             else:
                 s.append(list(rnd.choice(letters)))
         extra.append(s)
-    allseq = seqs + extra
+    # random traces must be consistent as well (Replay!ValidEvent): drop allocations that overlap a block the trace
+    # still holds at another pfn
+    def consistent(seq):
+        rec, out = {}, []
+        for a, p, o in seq:
+            if a == 1:
+                if any(p < q + (1 << ro) and q < p + (1 << o) and q != p for q, ro in rec.items()):
+                    continue
+                rec[p] = o
+            else:
+                found = None
+                for so in range(o, 12):
+                    b = (p >> so) << so
+                    if b in rec and rec[b] >= so:
+                        found = b
+                        break
+                if found is not None:
+                    A = rec[found]
+                    parts = [found + i * (1 << o) for i in range(1 << (A - o))]
+                    for q in parts:
+                        rec.pop(q, None)
+                    for q in parts:
+                        if q != p:
+                            rec[q] = o
+            out.append([a, p, o])
+        return out
+    extra = [consistent(s) for s in extra]
+    allseq = seqs + [s for s in extra if s]
     with ThreadPoolExecutor(max_workers=vlib.NCPU) as ex:
         evs = list(ex.map(lambda iq: replaylib.run_replay(binary, iq[1], vlib.WORK, cores=1 + iq[0] % 3), enumerate(allseq)))
     # validate in chunks
@@ -487,6 +514,8 @@ GEN_THEMES = {
     "Frag": [({"tf": 2, "hf": 0, "plus": 0}, "free", "simple", 1), ({"tf": 2, "hf": 0, "plus": 0}, "free", "movable", 1),
              ({"tf": 3, "hf": 0, "plus": 0}, "free", "simple", 2)],
     "Full": [({"tf": 1, "hf": 0, "plus": 0}, "free", "simple", 1), ({"tf": 2, "hf": 0, "plus": 0}, "free", "movable", 1)],
+    "Demote": [({"tf": 2, "hf": 0, "plus": 0}, "free", "uneven", 1), ({"tf": 2, "hf": 0, "plus": 0}, "free", "simple", 2),
+               ({"tf": 3, "hf": 0, "plus": 0}, "free", "uneven", 2)],
     "Offline": [({"tf": 3, "hf": 0, "plus": 0}, "free", "simple", 1), ({"tf": 2, "hf": 1, "plus": 0}, "free", "zeroed", 1),
                 ({"tf": 2, "hf": 0, "plus": 0}, "alloc", "simple", 1)],
 }
@@ -522,6 +551,8 @@ def script_jobs(tier, seed, themes=None):
         d = depth
         if theme in ("Cursor", "Full"):
             d = 5 if tier == "quick" or theme == "Full" else 6
+        if theme == "Demote":
+            d = depth + 1
         seqs, st = gen_sequences(theme, d)
         states += st[1]
         nseq += len(seqs)
@@ -735,3 +766,19 @@ def check_c10(prop, tier, seed):
 
 PLANS["C15"] = check_c15
 PLANS["C10"] = check_c10
+
+
+def check_c08(prop, tier, seed):
+    """argument checks on sequential histories + validation of the metadata buffers handed to LLFree::new"""
+    res = _seq_check(prop, tier, seed)
+    if not vlib.STOP.is_set():
+        geos = ["th4", "th1"] if tier == "quick" else ["th4", "th1", "th2", "th8", "16k"]
+        jobs = [(g, ["meta", "seed=%d" % (seed * 10 + i), "runs=%d" % (1200 if tier == "quick" else 6000)]) for g in geos for i in range(2)]
+        gen_and_validate(res, jobs, [prop], module="TraceSat")
+        res.cov["rule"] += ("; plus LLFree::new over three slices carved out of one arena: exact, one byte short, longer, "
+                            "misaligned by 1..63, identical / partially overlapping / nested / adjacent layouts; TLC decides "
+                            "validity from sizes and offsets (TraceSat!MetaValid) and demands Ok resp. the initialization error")
+    return res
+
+
+PLANS["C08"] = check_c08
